@@ -43,6 +43,9 @@ func caseLines(s scn, ro *runOut) []string {
 	if s.Writer == "unpack-zip-big" {
 		return bigLines(s, ro)
 	}
+	if isTwo(s.Writer) {
+		return twoLines(s)
+	}
 	lines := []string{s.line()}
 	if ro.err != "" || ro.res == nil {
 		return lines
@@ -179,7 +182,7 @@ func (e *c17exec) Do(line string) string {
 		if ro.err != "" {
 			return "harness-error " + strings.ReplaceAll(ro.err, "\n", " ")
 		}
-		if ro.big != nil {
+		if ro.big != nil || ro.two != nil {
 			return "ok"
 		}
 		e.init = map[string]bool{}
@@ -201,6 +204,12 @@ func (e *c17exec) Do(line string) string {
 				return "publish"
 			}
 			return "no-publish"
+		}
+		return "bad-op"
+	}
+	if e.ro != nil && e.ro.two != nil {
+		if f[0] == "two" {
+			return twoAnswer(e.ro.two)
 		}
 		return "bad-op"
 	}
@@ -595,6 +604,17 @@ func monitor(c hxlib.Case, outs []string) (vs []hxlib.Violation) {
 		}
 		return nil
 	}
+	if isTwo(s.Writer) {
+		for _, v := range twoMonitor(s, c.Lines, outs) {
+			vs = append(vs, hxlib.Violation{Sig: v.Sig, What: v.What, Lines: c.Lines, Output: outs})
+		}
+		for _, o := range outs {
+			if strings.HasPrefix(o, "PANIC") {
+				vs = append(vs, hxlib.Violation{Sig: "C17:" + s.Writer + ":panic", What: o, Lines: c.Lines, Output: outs})
+			}
+		}
+		return vs
+	}
 	var d destInfo
 	haveDest := false
 	initial := map[string]string{}
@@ -804,7 +824,15 @@ func generate(r *hxlib.Run, emit func(hxlib.Case)) {
 		cacheMu.Lock()
 		runCache[lines[0]] = ro
 		cacheMu.Unlock()
-		nt := (ro.res != nil && len(ro.res.Events) > 0) || ro.big != nil
+		nt := (ro.res != nil && len(ro.res.Events) > 0) || ro.big != nil || ro.two != nil
+		if ro.two != nil {
+			r.Count("two-writers:" + s.Writer)
+			r.Count(fmt.Sprintf("two-writers:forced-overlap-happened=%v", ro.two.Overlap))
+			r.Count("two-writers:returns:" + ro.two.RetA + "," + ro.two.RetB)
+			statsMu.Lock()
+			stats.reads += ro.two.Reads
+			statsMu.Unlock()
+		}
 		if ro.big != nil {
 			r.Count("big-member:" + s.Var)
 		}
@@ -860,7 +888,7 @@ func generate(r *hxlib.Run, emit func(hxlib.Case)) {
 			}
 			statsMu.Unlock()
 		}
-		emit(hxlib.Case{Lines: lines, NonTrivial: nt, Kind: s.Writer})
+		emit(hxlib.Case{Lines: lines, NonTrivial: nt, Kind: s.Writer, NoModel: ro.two != nil || (isTwo(s.Writer) && ro.err != "")})
 	}
 	j := 0
 	for i, s := range scns {
@@ -898,6 +926,9 @@ func main() {
 		fmt.Sscan(os.Args[3], &n)
 		os.Exit(runBigZip(os.Args[2], n))
 	}
+	if len(os.Args) >= 4 && os.Args[1] == "__two" {
+		os.Exit(runTwo(os.Args[2], os.Args[3]))
+	}
 	if len(os.Args) >= 3 && os.Args[1] == "__trace" {
 		os.Exit(runTrace(os.Args[2]))
 	}
@@ -924,6 +955,9 @@ func main() {
 			fmt.Printf("killed=%v killcall=%q nkill=%d completed=%v reads=%d syscalls=%d writer=%q err=%q\n", ro.res.Killed, ro.res.KillCall,
 				ro.res.NKill, ro.res.Completed, ro.res.Reads, ro.res.Syscalls, ro.res.WriterOut, ro.res.Error)
 		}
+		if ro.two != nil {
+			fmt.Printf("two: %+v\n", *ro.two)
+		}
 		for _, v := range monitor(hxlib.Case{Lines: lines}, outs) {
 			fmt.Println("MONITOR:", v.Sig, "—", v.What)
 		}
@@ -931,7 +965,7 @@ func main() {
 	}
 	hxlib.Main(&hxlib.Harness{
 		Prop:     "C17",
-		Rule:     "a case is one run of one real writer (renameio.WriteFile/Symlink, utils.CreateAtomic/CopyFileAtomic/ReplaceFileAtomic, fstree.Put, updater download via DownloadUpdates against an in-process HTTP server incl. signed and missing-signature downloads, updater.UnpackResources, File.Unpack) in a child process under a ptrace system-call stepper: once to completion and once per crash point k (killed immediately before its k-th file-system-mutating system call; all k when there are few, first/last/random k otherwise), over old states absent / present / present read-only / symlink / directory, contents empty / tiny / small / chunk-boundary sizes / medium / multi-MiB (random or with magic prefixes), TMPDIR on the same file system / on another file system / unusable / explicit temp dir (same and other file system), failing operations (reader error, missing source; for downloads an in-process server playing per attempt one of 27 answers — body truncated by orderly close or reset at byte 0 / 1 / half / last / random under Content-Length, chunked, close-delimited or HTTP/1.0 framing, body longer or shorter than announced, complete but unannounced, gzip Content-Encoding complete or cut, 204 / 206 / 301 / 302-to-complete / 304 / 404 / 500 / 503, no answer — alone or followed by a retry with a complete answer, through DownloadUpdates and GetFile, unsigned or with signature verification: valid, body not matching the signature under require / warn, unusable signature, no signature; for unpacking gzip files with corrupt trailer / corrupt data / cut in the data / cut in the trailer / trailing garbage / no gzip header and zip archives with a corrupt member / a member shorter than its header / cut in the middle) and history (the same operation killed earlier on the same sandbox). Lines: initial snapshot, translated system calls, final snapshot; per call the errno and the destination as a reader sees it are compared between the kernel and the Lean file-system model, the final snapshot likewise, the Lean safePublish / onlyTemp checkers run on the actual call sequence, and the run must be a path of the Lean program of the writer with the same return value; for downloads that program is derived by the model from the server behaviour (transport + fetchDecision over the guards regenerated from updater/fetch.go), and on complete runs what the client saw of every response (status, ContentLength, bytes read, read error — observed by a wrapper around http.DefaultTransport), the bytes written and the publish / abort outcome of every attempt, and the publish decision of File.Unpack / unpackZipArchive are compared with the model as well. Non-trivial: the run issued at least one mutating call; distinct by the hash of the lines.",
+		Rule:     "a case is one run of one real writer (renameio.WriteFile/Symlink, utils.CreateAtomic/CopyFileAtomic/ReplaceFileAtomic, fstree.Put, updater download via DownloadUpdates against an in-process HTTP server incl. signed and missing-signature downloads, updater.UnpackResources, File.Unpack) in a child process under a ptrace system-call stepper: once to completion and once per crash point k (killed immediately before its k-th file-system-mutating system call; all k when there are few, first/last/random k otherwise), over old states absent / present / present read-only / symlink / directory, contents empty / tiny / small / chunk-boundary sizes / medium / multi-MiB (random or with magic prefixes), TMPDIR on the same file system / on another file system / unusable / explicit temp dir (same and other file system), failing operations (reader error, missing source; for downloads an in-process server playing per attempt one of 27 answers — body truncated by orderly close or reset at byte 0 / 1 / half / last / random under Content-Length, chunked, close-delimited or HTTP/1.0 framing, body longer or shorter than announced, complete but unannounced, gzip Content-Encoding complete or cut, 204 / 206 / 301 / 302-to-complete / 304 / 404 / 500 / 503, no answer — alone or followed by a retry with a complete answer, through DownloadUpdates and GetFile, unsigned or with signature verification: valid, body not matching the signature under require / warn, unusable signature, no signature; for unpacking gzip files with corrupt trailer / corrupt data / cut in the data / cut in the trailer / trailing garbage / no gzip header and zip archives with a corrupt member / a member shorter than its header / cut in the middle) and history (the same operation killed earlier on the same sandbox). Lines: initial snapshot, translated system calls, final snapshot; per call the errno and the destination as a reader sees it are compared between the kernel and the Lean file-system model, the final snapshot likewise, the Lean safePublish / onlyTemp checkers run on the actual call sequence, and the run must be a path of the Lean program of the writer with the same return value; for downloads that program is derived by the model from the server behaviour (transport + fetchDecision over the guards regenerated from updater/fetch.go), and on complete runs what the client saw of every response (status, ContentLength, bytes read, read error — observed by a wrapper around http.DefaultTransport), the bytes written and the publish / abort outcome of every attempt, and the publish decision of File.Unpack / unpackZipArchive are compared with the model as well. Two-writers cases (no model lines, untraced): two goroutines run the same kind of operation on ONE destination — UnpackResources of an archive with a large member (the second call is started when the first member of the first call exists in the temp directory), utils.CreateAtomic and File.Unpack (the first call is held in the middle of its content until the second has returned), GetFile downloads, renameio.WriteFile and fstree.Put of different contents (started together) — with three free-running readers; judged: every state a reader saw is the previous state or a complete new content, once one call has returned successfully the destination shows a complete new content (also at the end), nothing is left outside the temporary location. Non-trivial: the run issued at least one mutating call (two-writers: both calls returned); distinct by the hash of the lines.",
 		Generate: generate,
 		NewExec:  func(*hxlib.Run) hxlib.Exec { return &c17exec{} },
 		Monitor:  monitor,
